@@ -627,8 +627,11 @@ def main():
     if harness_errors:
         for h in harness_errors[:5]:
             print("HARNESS-ERROR", h)
-        print(f"property={pid} harness error: no verdict")
-        return 2
+        if not violations:
+            print(f"property={pid} harness error: no verdict")
+            return 2
+        # violations found by other shards stand on their own (each has a replay file that decides); they are reported
+        print(f"property={pid} harness error in {len(harness_errors)} shard(s): their cases have no verdict")
     evidence_ok = True
     try:
         import jsonschema
